@@ -47,4 +47,28 @@ def jobs(pid, tier):
         return [vrt('C07', [r'mx2_.*_r1'], unbounded=True, workers=4),
                 vrt('C07', [r'mx3_.*'], bound=3, workers=16),
                 vrt('C07', [r'mx4_.*'], bound=2, workers=16)]
+    if pid == 'C01':
+        if q:
+            return [vrt('C01', [r'once_(int|counted)_[a-z]+-[a-z]+_(none|wait)', r'once_(int|counted|void)_nop_.*',
+                                r'once_(moveonly|ref|void)_(val-val|val-exc|val-mvcall|drop-mvdie|exc-mvdie)_(coro|hasv)'], bound=2, workers=2)]
+        return [vrt('C01', [r'once_[a-z]+_[a-z]+-[a-z]+_none', r'once_[a-z]+_nop_.*'], unbounded=True, workers=2),
+                vrt('C01', [r'once_[a-z]+_[a-z]+-[a-z]+_(wait|coro|hasv)'], bound=3, workers=4),
+                vrt('C01', [r'once_[a-z]+_[a-z]+-[a-z]+-[a-z]+_.*'], bound=3, workers=8)]
+    if pid == 'C02':
+        if q:
+            return [vrt('C02', [r'wake1_.*'], unbounded=True, workers=2),
+                    vrt('C02', [r'wake2_.*'], bound=2, workers=2)]
+        return [vrt('C02', [r'wake1_.*'], unbounded=True, workers=2),
+                vrt('C02', [r'wake2_.*'], bound=3, workers=4),
+                vrt('C02', [r'wake3_.*'], bound=3, workers=16)]
+    if pid == 'C03':
+        R = dict(race_oracle=True)
+        if q:
+            return [vrt('C01', [r'once_counted_(val-val|val-exc|exc-drop|val-mvdie)_(wait|coro|hasv)', r'once_(int|ref)_val-exc_wait'], bound=2, workers=2, **R),
+                    vrt('C02', [r'wake1_.*_(val|exc|async)', r'wake2_(coro-poll|wait-cb|hasv-sync|coro-coro|cb-cb)_(val|exc|drop|async)'], bound=2, workers=2, **R),
+                    vrt('C07', [r'mx2_.*_(dis-dis|dtor-awt|awt-move|move-move)_r1', r'mx3_f[012]_r[03]'], bound=2, workers=4, **R)]
+        return [vrt('C01', [r'once_[a-z]+_[a-z]+-[a-z]+_.*'], bound=3, workers=4, **R),
+                vrt('C02', [r'wake[12]_.*'], bound=3, workers=4, **R),
+                vrt('C02', [r'wake3_.*'], bound=2, workers=16, **R),
+                vrt('C07', [r'mx[23]_.*'], bound=3, workers=8, **R)]
     return []
